@@ -11,7 +11,6 @@ from mir_engine import MQ
 from mirlib import *
 from storelib import Store, EagerSched
 from envlib import struct_eq
-import C12 as _c12
 import C17 as _c17
 
 IOUGRID = [0.125, 0.5, 0.75]
@@ -99,7 +98,7 @@ def _trackbox(j):
     return Adt('Universal2DBox', 0, (f32(float(200 + j)), f32(0.0), NONE, f32(1.0), f32(1.0), f32(1.0), NONE))
 
 
-def mk_step(ndet, nstored):
+def mk_step(ndet, nstored, lite=False):
     def q(vm, P):
         fn = P.impl_methods[('VisualSort', None, 'predict_with_scene')][0][0]
         scene, other_scene = vm.fresh(64, 'scene'), vm.fresh(64, 'other_scene')
@@ -111,13 +110,13 @@ def mk_step(ndet, nstored):
         vm.assume(z3.ULT(max_idle.e, 2 ** 40))
         opts = Cell(sort_options(P, vm, ents, max_idle, history_length=usize(2)), 'opts')
         # ---- metric options
-        thr = grid_f32(vm, 'iou_threshold', [0.25, 0.5])
+        thr = grid_f32(vm, 'iou_threshold', [0.25] if lite else [0.25, 0.5])
         vthr = grid_f32(vm, 'visual_threshold', [0.5, 2.0])
         minc = f32(0.5)
-        min_len = usize(1) if vm.choose_n(2, "minimal track length") == 0 else usize(2)
-        min_votes = usize(1) if vm.choose_n(2, "min votes") == 0 else usize(2)
+        min_len = usize(1) if (lite or vm.choose_n(2, "minimal track length") == 0) else usize(2)
+        min_votes = usize(1) if (lite or vm.choose_n(2, "min votes") == 0) else usize(2)
         q_use = grid_f32(vm, 'q_use', [0.25, 0.75])
-        min_area = grid_f32(vm, 'min_area', [0.5, 2.0])
+        min_area = grid_f32(vm, 'min_area', [0.5] if lite else [0.5, 2.0])
         mo = mk(P, 'VisualMetricOptions', visual_max_observations=usize(2), visual_min_votes=min_votes,
                 visual_kind=variant(P, 'VisualSortMetricType', 'Euclidean', vthr), positional_kind=variant(P, 'PositionalMetricType', 'IoU', thr),
                 visual_minimal_track_length=min_len, visual_minimal_area=min_area, visual_minimal_quality_use=q_use,
@@ -185,11 +184,11 @@ def mk_step(ndet, nstored):
         # ---- detections
         dets, dinfo = [], []
         for i in range(ndet):
-            conf = grid_f32(vm, 'det%d_conf' % i, [0.25, 1.0])
+            conf = grid_f32(vm, 'det%d_conf' % i, [1.0] if lite else [0.25, 1.0])
             has_cid = vm.choose_n(2, "custom id given") == 0
             cid = vm.fresh(64, 'det%d_custom' % i, signed=True)
             has_f = vm.choose_n(2, "detection has a feature") == 0
-            has_q = vm.choose_n(2, "feature quality given") == 0
+            has_q = lite or vm.choose_n(2, "feature quality given") == 0
             qual = grid_f32(vm, 'det%d_quality' % i, [0.5, 1.0]) if has_q else f32(1.0)
             feat = SOME(Adt('Cow', 0, (Ref(Cell(VecV((Opaque('f32', 'det%d' % i), Opaque('f32', 'det%d_b' % i)), 'slice'), 'feat%d' % i)),))) if has_f else NONE
             dets.append(mk(P, 'VisualSortObservation', feature=feat, feature_quality=SOME(qual) if has_q else NONE, bounding_box=_detbox(i, conf),
@@ -271,6 +270,7 @@ def mk_step(ndet, nstored):
         for f, t, w, d in stream:
             in_stream.add([k for k, c in enumerate(cand_ids) if c is f][0])
         res_for_oracle = {i: v for i, v in res.items() if (i in in_stream or v[0][0] == 'track')}
+        import C12 as _c12     # (imported here: C12 cross-lists this module's queries)
         _c12.check_visual_assignment(vm, P, O, cand_ids, tids, stream, res_for_oracle, thr, labels_for_self=False)
         used = [v[0][1] for v in res.values() if v[0][0] == 'track']
         vm.check(BOOL(len(used) == len(set(used))), "no two detections of one call receive the same track")
@@ -313,85 +313,76 @@ use similari::trackers::visual_sort::options::VisualSortOptions;
 use similari::trackers::visual_sort::simple_api::VisualSort;
 use similari::trackers::visual_sort::VisualSortObservation;
 use similari::utils::bbox::BoundingBox;
-use std::collections::HashSet;
 
-#[derive(Clone, Debug)]
-struct MT { id: u64, scene: u64, pos: i32, look: i32, last: usize, len: usize, feats: usize }
-
-/// deterministic pseudo-random multi-scene histories: objects at well separated places (1000 apart), each with its own
-/// appearance (orthogonal unit-ish features 10 apart); an object may re-appear at ANOTHER place: then only appearance can
-/// re-identify it (when the track has collected enough features), otherwise it starts a new track
-fn history(min_len: usize, max_idle: usize, seed: u64, steps: usize) {
-    let opts = VisualSortOptions::default().max_idle_epochs(max_idle).kept_history_length(2).visual_max_observations(3)
+/// one object seen for `pattern.len()` frames at place 0 (frame k: feature present? quality good?), then probed:
+///  (1) the same look far away (only appearance can re-identify it), (2) something without feature where it was last seen
+fn scenario(min_len: usize, max_obs: usize, pattern: &[(bool, bool)], probe_good: bool) {
+    let opts = VisualSortOptions::default().max_idle_epochs(3).kept_history_length(2).visual_max_observations(max_obs)
         .visual_minimal_track_length(min_len).visual_min_votes(1).visual_minimal_quality_use(0.5).visual_minimal_quality_collect(0.5)
         .positional_metric(PositionalMetricType::IoU(0.3)).visual_metric(VisualSortMetricType::Euclidean(1.0));
     let mut t = VisualSort::new(1, &opts);
-    let mut model: Vec<MT> = vec![];
-    let mut issued: HashSet<u64> = HashSet::new();
-    let mut epochs = [0usize; 2];
-    let mut rng = seed.wrapping_mul(6364136223846793005).wrapping_add(1442695040888963407);
-    for step in 0..steps {
-        rng = rng.wrapping_mul(6364136223846793005).wrapping_add(1442695040888963407);
-        let scene = (rng >> 33) % 2;
-        epochs[scene as usize] += 1;
-        let epoch = epochs[scene as usize];
-        // up to two objects: object k has look k; it shows up at place (k + shift) % 3
-        let mask = (rng >> 40) % 4;
-        let shift = ((rng >> 44) % 2) as i32;
-        let good_quality = (rng >> 46) & 1 == 1;
-        let with_feature = (rng >> 47) % 4 != 0;
-        let objs: Vec<i32> = (0..2).filter(|k| (mask >> k) & 1 == 1).collect();
-        let feats: Vec<Vec<f32>> = objs.iter().map(|k| vec![10.0 * *k as f32, 1.0]).collect();
-        let dets: Vec<VisualSortObservation> = objs.iter().zip(feats.iter()).map(|(k, f)| {
-            let place = (*k + shift) % 3;
-            VisualSortObservation::new(if with_feature { Some(&f[..]) } else { None }, Some(if good_quality { 0.9 } else { 0.2 }),
-                BoundingBox::new(1000.0 * place as f32, 0.0, 10.0, 20.0).as_xyaah(), Some(step as i64 * 10 + *k as i64))
-        }).collect();
-        let recs = t.predict_with_scene(scene, &dets);
-        let ctx = format!("min_len {} max_idle {} seed {} step {} scene {}", min_len, max_idle, seed, step, scene);
-        assert_eq!(recs.len(), dets.len(), "one record per detection ({})", ctx);
-        let mut seen = HashSet::new();
-        for (k, r) in objs.iter().zip(recs.iter()) {
-            let place = (*k + shift) % 3;
-            assert!((r.observed_bbox.xc - (1000.0 * place as f32 + 5.0)).abs() < 1e-3, "record echoes the observed box in submission order ({})", ctx);
-            assert_eq!(r.custom_object_id, Some(step as i64 * 10 + *k as i64), "record echoes the custom object id ({})", ctx);
-            assert_eq!((r.scene_id, r.epoch), (scene, epoch), "record carries scene and epoch ({})", ctx);
-            assert!(seen.insert(r.id), "no two detections of one call receive the same track ({})", ctx);
-            // expected decision
-            let alive = |m: &MT| m.scene == scene && epoch - m.last <= max_idle;
-            let visual = if with_feature && good_quality { model.iter().position(|m| alive(m) && m.look == *k && m.feats >= min_len && m.feats >= 1) } else { None };
-            let positional = model.iter().position(|m| alive(m) && m.pos == place);
-            let collected = with_feature && good_quality;
-            match visual.or(positional) {
-                Some(ix) if visual.is_some() || !model.iter().any(|m| false && m.id == 0) => {
-                    // a positional candidate may have been taken visually by the other detection: accept a new track then
-                    if r.id == model[ix].id {
-                        let m = &mut model[ix];
-                        m.last = epoch; m.len += 1; m.pos = place; if collected { m.feats = (m.feats + 1).min(3); }
-                        assert_eq!(r.length, m.len, "track length ({})", ctx);
-                        if visual.is_some() { assert!(matches!(r.voting_type, VotingType::Visual), "attached by appearance -> Visual ({})", ctx); m.look = *k; }
-                        else { assert!(matches!(r.voting_type, VotingType::Positional), "attached by position -> Positional ({})", ctx); if m.feats == 0 || collected { m.look = *k; } }
-                    } else {
-                        assert!(visual.is_none(), "an uncontested appearance match must be taken ({})", ctx);
-                        assert!(issued.insert(r.id), "otherwise a new track with a fresh id ({})", ctx);
-                        assert_eq!(r.length, 1);
-                        model.push(MT { id: r.id, scene, pos: place, look: *k, last: epoch, len: 1, feats: if with_feature { 1 } else { 0 } });
-                    }
-                }
-                _ => {
-                    assert!(issued.insert(r.id), "nothing to continue: a new track with an id never issued before: {} ({})", r.id, ctx);
-                    assert_eq!(r.length, 1);
-                    model.push(MT { id: r.id, scene, pos: place, look: *k, last: epoch, len: 1, feats: if with_feature { 1 } else { 0 } });
-                }
-            }
+    let look = vec![7.0f32, 1.0];
+    let ctx = format!("min_len {} max_obs {} pattern {:?} probe_good {}", min_len, max_obs, pattern, probe_good);
+    let mut id = 0u64;
+    let mut stored = 0usize;      // features in the gallery, by the rules of the property
+    for (k, (with_f, good)) in pattern.iter().enumerate() {
+        let r = t.predict(&[VisualSortObservation::new(if *with_f { Some(&look[..]) } else { None }, Some(if *good { 0.9 } else { 0.2 }),
+                                                      BoundingBox::new(0.0, 0.0, 10.0, 20.0).as_xyaah(), Some(k as i64))]);
+        assert_eq!(r.len(), 1, "one record per detection ({})", ctx);
+        if k == 0 { id = r[0].id; stored = if *with_f { 1 } else { 0 }; } else {
+            assert_eq!(r[0].id, id, "the object at the same place continues its track ({})", ctx);
+            if stored >= max_obs { stored -= 1; }
+            if *with_f && *good { stored += 1; }
         }
-        for s in 0..2u64 { assert_eq!(t.current_epoch_with_scene(s), epochs[s as usize], "epochs advance per scene only ({})", ctx); }
+        assert_eq!(r[0].length, k + 1, "track length ({})", ctx);
+        assert_eq!(r[0].custom_object_id, Some(k as i64), "record echoes the custom object id ({})", ctx);
+        assert_eq!(r[0].epoch, k + 1, "record carries the epoch ({})", ctx);
     }
+    let n = pattern.len();
+    // (A) same place, same look: appearance decides first when allowed, otherwise position
+    let r = t.predict(&[VisualSortObservation::new(Some(&look[..]), Some(if probe_good { 0.9 } else { 0.2 }), BoundingBox::new(0.0, 0.0, 10.0, 20.0).as_xyaah(), Some(77))]);
+    let by_appearance = probe_good && stored >= min_len && stored >= 1;
+    assert_eq!(r[0].id, id, "the object at the same place continues its track ({})", ctx);
+    assert_eq!(matches!(r[0].voting_type, VotingType::Visual), by_appearance, "Visual exactly when the feature is usable and enough features are collected ({}; {} stored)", ctx, stored);
+    assert_eq!(r[0].length, n + 1);
+    if stored >= max_obs { stored -= 1; }
+    if probe_good { stored += 1; }
+    // (B) same place, no feature: positional, whatever the previous attachment was
+    let r = t.predict(&[VisualSortObservation::new(None, Some(0.9), BoundingBox::new(0.0, 0.0, 10.0, 20.0).as_xyaah(), None)]);
+    assert_eq!(r[0].id, id, "the detection at the track's place continues it ({})", ctx);
+    assert!(matches!(r[0].voting_type, VotingType::Positional), "attached by position -> Positional, also after an appearance attachment ({})", ctx);
+    assert_eq!((r[0].custom_object_id, r[0].length), (None, n + 2));
+    if stored >= max_obs { stored -= 1; }
+    // (C) far away, same look, usable feature: only appearance can re-identify it
+    let r = t.predict(&[VisualSortObservation::new(Some(&look[..]), Some(0.9), BoundingBox::new(5000.0, 0.0, 10.0, 20.0).as_xyaah(), Some(78))]);
+    if stored >= min_len && stored >= 1 {
+        assert_eq!(r[0].id, id, "enough stored features close to the usable feature re-identify the track ({}; {} stored)", ctx, stored);
+        assert!(matches!(r[0].voting_type, VotingType::Visual), "attached by appearance -> Visual ({})", ctx);
+        assert_eq!(r[0].length, n + 3);
+    } else {
+        assert_ne!(r[0].id, id, "without enough collected features the far-away look-alike starts a new track ({}; {} stored)", ctx, stored);
+        assert_eq!(r[0].length, 1);
+        assert!(r[0].id > id, "new ids are fresh");
+    }
+    assert_eq!(t.current_epoch_with_scene(0), n + 3);
+    assert_eq!(t.current_epoch_with_scene(5), 0, "other scenes untouched");
 }
 
 #[test]
 fn replay() {
-    for seed in 0..8u64 { for min_len in [1usize, 2] { for max_idle in [1usize, 3] { history(min_len, max_idle, seed, 40); } } }
+    let frames = [(true, true), (true, false), (false, true)];
+    for min_len in 1..=3usize { for max_obs in min_len..=3usize { for probe_good in [true, false] {
+        for a in &frames { for b in &frames { for c in &frames { for d in &frames {
+            scenario(min_len, max_obs, &[*a], probe_good);
+            scenario(min_len, max_obs, &[*a, *b], probe_good);
+            scenario(min_len, max_obs, &[*a, *b, *c, *d], probe_good);
+            scenario(min_len, max_obs, &[*a, *b, *c, *d, *a, *c], probe_good);
+        } } } }
+    } } }
+    // an empty frame advances the epoch
+    let mut t = VisualSort::new(1, &VisualSortOptions::default());
+    assert!(t.predict(&[]).is_empty());
+    assert_eq!(t.current_epoch_with_scene(0), 1, "an empty predict call advances the scene's epoch");
 }
 '''
 
@@ -407,8 +398,8 @@ FUNCS = [S, "similari::track::store::TrackStore::{new_track, foreign_track_dista
          "similari::trackers::visual_sort::track_attributes::VisualAttributes::{compatible, merge, update_history}", "similari::trackers::visual_sort::voting::VisualVoting::winners",
          "similari::track::voting::best::BestFitVoting::winners", "similari::trackers::sort::voting::SortVoting::winners", "similari::trackers::sort::SortTrack::from"]
 MIR = []
-for (nd, ns, tier) in [(0, 1, 'quick'), (1, 0, 'quick'), (1, 1, 'quick'), (2, 1, 'thorough'), (1, 2, 'thorough')]:
-    MIR.append(MQ("step_visual_d%d_t%d" % (nd, ns), tier, mk_step(nd, ns),
+for (nd, ns, tier, lite) in [(0, 1, 'quick', False), (1, 0, 'quick', False), (1, 1, 'quick', True), (1, 1, 'thorough', False), (2, 1, 'thorough', True), (1, 2, 'thorough', True)]:
+    MIR.append(MQ("step_visual_d%d_t%d%s" % (nd, ns, '_lite' if lite else ''), tier, mk_step(nd, ns, lite),
                   "one VisualSort::predict_with_scene call from an arbitrary valid tracker state: records echo the detections; attachment by appearance exactly under the use thresholds / collected "
                   "features / visual threshold / min votes, greatest weight wins, else positional maximum-weight fallback, else a new track; truthful voting type; galleries bounded; only this scene's epoch advances",
                   "%d detections, %d stored tracks (1-2 stored observations, features present or not), 1 shard, IoU + Euclidean mode, thresholds from small grids; geometry numbers, feature distances, packing and Kalman prediction uninterpreted" % (nd, ns),
